@@ -114,6 +114,12 @@ func newGetRangeResult(
 
 // Verify verifies inclusion the data in the data root
 func (r *GetRangeResult) Verify(dataRoot []byte) error {
+	if r.Proof == nil {
+		return errors.New("proof is missing")
+	}
+	if len(r.Shares) != len(r.Proof.Data) {
+		return errors.New("share count does not match the proven data")
+	}
 	rawShares := libshare.ToBytes(r.Shares)
 	for i, shares := range rawShares {
 		if !bytes.Equal(shares, r.Proof.Data[i]) {
